@@ -84,6 +84,9 @@ def run(ctx):
             except Exception:
                 continue
             ops = [("mul", operator.mul), ("truediv", operator.truediv), ("pow", None)]
+        if rng.random() < 0.04:
+            b, fb = a, fa   # the very same object on both sides: a + a, a - a, a / a, a == a, a < a
+            ctx.count("operand_pairs_that_are_one_object")
         if not orc.knows(b.unit) or not kit.finite(b.magnitude) or b.magnitude == 0:
             continue
         blo, bhi, _ = si(b)
